@@ -36,7 +36,7 @@ Init == heap = <<>> /\ hist = <<>>
 
 Op ==
     \/ "marginal" \in Ops /\ \E dims \in DistinctSeqs(d0) : AMarginal(1, dims)
-    \/ "linear_sum" \in Ops /\ \E ds \in 1..d0, s \in {0, 1}, bm \in {"none", "given"} :
+    \/ "linear_sum" \in Ops /\ \E ds \in 1..d0, s \in {0, 1}, bm \in {"none", "given", "big"} :
            ALinearSum(1, Pick(WMenu(ds, d0), NumR(p1), s), Pick(VEC2(ds), NumR(p1), s), bm)
     \/ "condition_on" \in Ops /\ \E dy \in ProperSeqs(d0) : AConditionOn(1, dy)
     \/ "condition_on_explicit" \in Ops /\
